@@ -135,6 +135,10 @@ func (x *heapInst) Ops() []space.Op {
 	}
 	if x.stale != nil {
 		ops = append(ops, space.Op{Name: "RemoveStale"})
+		if n < x.cap {
+			// the other way into the heap: an element that has left it is pushed again as an object
+			ops = append(ops, space.Op{Name: "PushElementStale"})
+		}
 	}
 	ops = append(ops, space.Op{Name: "RemoveForeign"})
 	for i := 0; i < n; i++ {
@@ -183,6 +187,22 @@ func (x *heapInst) apply(op space.Op) *space.Mismatch {
 			return mm("Heap.Push|wrong-value", "Push(%d) returned a handle with Value %d", v, e.Value)
 		}
 		x.live[e] = v
+
+	case "PushElementStale":
+		e := x.stale
+		x.h.PushElement(e)
+		x.live[e] = e.Value
+		x.stale = nil
+		if m := x.sameMembers("PushElement", backing(x.h)); m != nil {
+			return m
+		}
+		// the re-entered handle must be fully live again: Fix through it restores the order
+		e.Value = 0
+		x.live[e] = 0
+		x.h.Fix(e)
+		if m := x.sameMembers("Fix", backing(x.h)); m != nil {
+			return m
+		}
 
 	case "Pop":
 		e := x.h.Pop()
